@@ -383,6 +383,10 @@ static void print_task_newline(int current_tid)
 
 static void print_char(char **args, size_t *len, const char c)
 {
+	/* keep room for the terminating NUL */
+	if (*len < 2)
+		return;
+
 	**args = c;
 	*args += 1;
 	*len -= 1;
@@ -396,6 +400,17 @@ static void print_args(char **args, size_t *len, const char *fmt, ...)
 	va_start(ap, fmt);
 	x = vsnprintf(*args, *len, fmt, ap);
 	va_end(ap);
+
+	if (x < 0 || (size_t)x >= *len) {
+		/*
+		 * It does not fit.  Drop it as a whole (a part of an escape
+		 * sequence would not be valid) and never move beyond the buffer.
+		 */
+		if (*len)
+			**args = '\0';
+		return;
+	}
+
 	*args += x;
 	*len -= x;
 }
@@ -728,7 +743,8 @@ next:
 		print_args(&args, &len, ")");
 	}
 	else {
-		if (needs_semi_colon)
+		/* print_args() and print_char() left room for the NUL only */
+		if (needs_semi_colon && len > 1)
 			args[n++] = ';';
 		args[n] = '\0';
 	}
